@@ -11,23 +11,34 @@
    modelled ([cbc_enc], [cbc_dec]); a pycryptodome cipher object is identified
    with its chaining value.
 
-   File layout:  Part 1 "Model" (definitions only, all computable),
-                 Part 2 proofs, Part 3 toy instantiation / refutations /
-                 Print Assumptions.                                         *)
+   File layout:  Part 1 "Model" (definitions only, all computable; the
+                 cipher is a Section variable, so after the section every
+                 function takes Eb or Db as its first argument),
+                 Part 2 proofs (sections Enc / Dec / RoundTrip, each with
+                 exactly the hypotheses on Eb / Db it needs),
+                 Part 3 toy instantiation, examples, refutations,
+                 Print Assumptions.
+
+   Hypotheses on the abstract cipher used anywhere in this file:
+     Eb_len : forall x, length x = 16 -> length (Eb x) = 16   (length facts, round trip)
+     Db_len : forall x, length x = 16 -> length (Db x) = 16   (aes_decompress_out_len only)
+     Db_Eb  : forall x, length x = 16 -> Db (Eb x) = x        (round trip only)
+   Theorems 1-5 (cbc_*_app, residue invariant, both chunking theorems, the
+   refutations) need NO hypothesis on the cipher at all.                    *)
 
 From P7 Require Import Prelude.
 
 (* ====================================================================== *)
-(* Part 1.  MODEL                                                          *)
+(* Part 1.  MODEL                                                         *)
 (* ====================================================================== *)
 
 (* len(x) as a Python int *)
 Definition blen (l : bytes) : Z := Z.of_nat (length l).
 
 (* ---------------------------------------------------------------------- *)
-(* 1.1 Python slice semantics (step 1) for every integer index.            *)
-(*     CPython PySlice_AdjustIndices: a negative index gets len added and  *)
-(*     is then clamped to 0; a non-negative one is clamped to len.         *)
+(* 1.1 Python slice semantics (step 1) for every integer index.           *)
+(*     CPython PySlice_AdjustIndices: a negative index gets len added and *)
+(*     is then clamped to 0; a non-negative one is clamped to len.        *)
 (* ---------------------------------------------------------------------- *)
 
 Definition py_index (n k : Z) : Z :=
@@ -42,10 +53,10 @@ Definition py_slice_from (l : bytes) (k : Z) : bytes :=
   skipn (Z.to_nat (py_index (blen l) k)) l.
 
 (* ---------------------------------------------------------------------- *)
-(* 1.2 py7zr.io.Buffer, concretely: a bytearray [_buf] that is resized by  *)
-(*     slice assignment, and a logical length [_buflen].  [view] is        *)
+(* 1.2 py7zr.io.Buffer, concretely: a bytearray [_buf] that is resized by *)
+(*     slice assignment, and a logical length [_buflen].  [view] is       *)
 (*     re-computed by every method as _buf[0:_buflen] (a copy), so it is a *)
-(*     function of the two fields.                                         *)
+(*     function of the two fields.                                        *)
 (* ---------------------------------------------------------------------- *)
 
 Record rawbuf := { rb_buf : bytes; rb_len : Z }.
@@ -93,7 +104,7 @@ Definition zeros (n : Z) : bytes := repeatZ 0 (Z.to_nat n).
 Definition pad16 (d : bytes) : bytes := d ++ zeros ((- blen d) mod 16).
 
 (* ---------------------------------------------------------------------- *)
-(* 1.3 CBC over an abstract block step.                                    *)
+(* 1.3 CBC over an abstract block step.                                   *)
 (* ---------------------------------------------------------------------- *)
 
 Fixpoint xor_bytes (a b : bytes) : bytes :=
@@ -174,7 +185,7 @@ Definition cipher_decrypt (c : cst) (data : bytes) : cst * bytes :=
   let (out, c1) := cbc_dec c data in (c1, out).
 
 (* ---------------------------------------------------------------------- *)
-(* 1.4 AESCompressor                                                       *)
+(* 1.4 AESCompressor                                                      *)
 (* ---------------------------------------------------------------------- *)
 
 Record cstate := { cbuf : bytes; ccst : cst }.
@@ -223,7 +234,7 @@ Definition aes_flush (st : cstate) : cstate * bytes :=
     (st, []).
 
 (* ---------------------------------------------------------------------- *)
-(* 1.5 AESDecompressor                                                     *)
+(* 1.5 AESDecompressor                                                    *)
 (* ---------------------------------------------------------------------- *)
 
 Record dstate := { dbuf : bytes; dcst : cst }.
@@ -268,11 +279,17 @@ Definition aes_decompress (st : dstate) (data : bytes) : dstate * bytes :=
     (* self.buf.reset() *)
     ({| dbuf := buf_reset b1; dcst := c1 |}, temp3).
 
+(* Specification vocabulary for the decompressor: a call decompress(d) is
+   "good" when the residue is empty or residue + d completes a block.
+   [dec_chunks_ok] (above) is the same condition along a whole schedule.   *)
+Definition dec_call_ok (st : dstate) (d : bytes) : Prop :=
+  blen (dbuf st) = 0 \/ 16 <= blen (dbuf st) + blen d.
+
 (* ---------------------------------------------------------------------- *)
 (* 1.6 The same three methods with pycryptodome's ValueError made explicit *)
-(*     (Err EOther  <->  the cipher is handed a length that is not a       *)
-(*     multiple of 16).  Part 2 proves they agree with 1.4/1.5 whenever    *)
-(*     they return Ok, and says exactly when they return Err.              *)
+(*     (Err EOther  <->  the cipher is handed a length that is not a      *)
+(*     multiple of 16).  Part 2 proves they agree with 1.4/1.5 whenever   *)
+(*     they return Ok, and says exactly when they return Err.             *)
 (* ---------------------------------------------------------------------- *)
 
 Definition cipher_encrypt_chk (c : cst) (data : bytes) : res (cst * bytes) :=
@@ -326,7 +343,7 @@ Definition aes_decompress_chk (st : dstate) (data : bytes) : res (dstate * bytes
     Ok ({| dbuf := buf_reset b1; dcst := c1 |}, temp3).
 
 (* ---------------------------------------------------------------------- *)
-(* 1.7 Runs                                                                *)
+(* 1.7 Runs                                                               *)
 (* ---------------------------------------------------------------------- *)
 
 (* feed the chunks one after the other, concatenate what comes out *)
@@ -368,15 +385,17 @@ Fixpoint decompress_all_chk (st : dstate) (chunks : list bytes) : res (dstate * 
       Ok (st2, o1 ++ o2)
   end.
 
+End AES.
 
 (* ====================================================================== *)
-(* Part 2.  PROOFS                                                         *)
+(* Part 2.  PROOFS                                                        *)
 (* ====================================================================== *)
 
 Arguments split16 : simpl never.
 
+
 (* ---------------------------------------------------------------------- *)
-(* 2.1 lengths, Python int bit tricks, slices                              *)
+(* 2.1 lengths, Python int bit tricks, slices                             *)
 (* ---------------------------------------------------------------------- *)
 
 Lemma blen_nonneg (l : bytes) : 0 <= blen l.
@@ -432,6 +451,9 @@ Proof.
   rewrite skipn_length. lia.
 Qed.
 
+Lemma py_slice_from_le (l : bytes) (k : Z) : blen (py_slice_from l k) <= blen l.
+Proof. unfold py_slice_from, blen. rewrite skipn_length. lia. Qed.
+
 (* negative index: counts from the end *)
 Lemma py_slice_from_neg (l : bytes) (k : Z) (H : - blen l <= k < 0) :
   py_slice_from l k = skipn (Z.to_nat (blen l + k)) l.
@@ -451,7 +473,7 @@ Proof.
 Qed.
 
 (* ---------------------------------------------------------------------- *)
-(* 2.2 The concrete Buffer refines the list operations                     *)
+(* 2.2 The concrete Buffer refines the list operations                    *)
 (* ---------------------------------------------------------------------- *)
 
 Lemma rb_init_wf (size : Z) : rb_wf (rb_init size).
@@ -521,7 +543,7 @@ Proof.
 Qed.
 
 (* ---------------------------------------------------------------------- *)
-(* 2.3 pad16                                                               *)
+(* 2.3 pad16                                                              *)
 (* ---------------------------------------------------------------------- *)
 
 Lemma pad16_nil : pad16 [] = [].
@@ -551,7 +573,7 @@ Proof.
 Qed.
 
 (* ---------------------------------------------------------------------- *)
-(* 2.4 xor                                                                 *)
+(* 2.4 xor                                                                *)
 (* ---------------------------------------------------------------------- *)
 
 Lemma xor_bytes_length (a b : bytes) :
@@ -570,7 +592,7 @@ Proof.
 Qed.
 
 (* ---------------------------------------------------------------------- *)
-(* 2.5 generic CBC                                                         *)
+(* 2.5 generic CBC                                                        *)
 (* ---------------------------------------------------------------------- *)
 
 Lemma split16_spec (l : bytes) :
@@ -716,101 +738,42 @@ Proof. exact (cbc_length_n (length x) x iv (le_n _) Hiv). Qed.
 
 End CBC.
 
-(* ---------------------------------------------------------------------- *)
-(* 2.6 Hypotheses on the block cipher (all of them; each theorem's         *)
-(*     Print Assumptions / statement shows which ones it really uses)      *)
-(* ---------------------------------------------------------------------- *)
+Lemma mult16_mod (q : Z) : (16 * q) mod 16 = 0.
+Proof. rewrite Z.mul_comm. apply Z_mod_mult. Qed.
 
-Hypothesis Db_Eb : forall x : bytes, length x = 16%nat -> Db (Eb x) = x.
-Hypothesis Eb_len : forall x : bytes, length x = 16%nat -> length (Eb x) = 16%nat.
-Hypothesis Db_len : forall x : bytes, length x = 16%nat -> length (Db x) = 16%nat.
+
 
 (* ---------------------------------------------------------------------- *)
-(* 2.7 Theorem 1: CBC can be cut at any block boundary                     *)
+(* 2.6 ENCRYPTION SIDE.  Theorem 1 (cbc_enc_app).  No hypothesis on the   *)
+(*     block cipher is needed for Theorems 1-3; the length facts need     *)
+(*     Eb_len, declared further down (2.10).                              *)
 (* ---------------------------------------------------------------------- *)
+
+Section Enc.
+Variable Eb : bytes -> bytes.
 
 Theorem cbc_enc_app (iv a b : bytes) (Ha : blen a mod 16 = 0) :
-  cbc_enc iv (a ++ b) =
-  (fst (cbc_enc iv a) ++ fst (cbc_enc (snd (cbc_enc iv a)) b),
-   snd (cbc_enc (snd (cbc_enc iv a)) b)).
-Proof. exact (cbc_app enc_step iv a b Ha). Qed.
+  cbc_enc Eb iv (a ++ b) =
+  (fst (cbc_enc Eb iv a) ++ fst (cbc_enc Eb (snd (cbc_enc Eb iv a)) b),
+   snd (cbc_enc Eb (snd (cbc_enc Eb iv a)) b)).
+Proof. exact (cbc_app (enc_step Eb) iv a b Ha). Qed.
 
-Theorem cbc_dec_app (iv a b : bytes) (Ha : blen a mod 16 = 0) :
-  cbc_dec iv (a ++ b) =
-  (fst (cbc_dec iv a) ++ fst (cbc_dec (snd (cbc_dec iv a)) b),
-   snd (cbc_dec (snd (cbc_dec iv a)) b)).
-Proof. exact (cbc_app dec_step iv a b Ha). Qed.
-
-Lemma cbc_enc_nil (iv : bytes) : cbc_enc iv [] = ([], iv).
+Lemma cbc_enc_nil (iv : bytes) : cbc_enc Eb iv [] = ([], iv).
 Proof. reflexivity. Qed.
-
-Lemma cbc_dec_nil (iv : bytes) : cbc_dec iv [] = ([], iv).
-Proof. reflexivity. Qed.
-
-Lemma enc_step_len (iv blk : bytes) (Hiv : length iv = 16%nat) (Hb : length blk = 16%nat) :
-  length (fst (enc_step iv blk)) = 16%nat /\ length (snd (enc_step iv blk)) = 16%nat.
-Proof.
-  unfold enc_step; simpl.
-  assert (L : length (Eb (xor_bytes blk iv)) = 16%nat).
-  { apply Eb_len. rewrite xor_bytes_length, Hiv, Hb. reflexivity. }
-  auto.
-Qed.
-
-Lemma dec_step_len (iv blk : bytes) (Hiv : length iv = 16%nat) (Hb : length blk = 16%nat) :
-  length (fst (dec_step iv blk)) = 16%nat /\ length (snd (dec_step iv blk)) = 16%nat.
-Proof.
-  unfold dec_step; simpl. split; [|exact Hb].
-  rewrite xor_bytes_length, Hiv, (Db_len blk Hb). reflexivity.
-Qed.
-
-(* output length = the whole blocks of the input; chaining value stays 16 bytes *)
-Lemma cbc_enc_length (iv x : bytes) (Hiv : length iv = 16%nat) :
-  blen (fst (cbc_enc iv x)) = 16 * (blen x / 16) /\ length (snd (cbc_enc iv x)) = 16%nat.
-Proof. exact (cbc_length enc_step enc_step_len x iv Hiv). Qed.
-
-Lemma cbc_dec_length (iv x : bytes) (Hiv : length iv = 16%nat) :
-  blen (fst (cbc_dec iv x)) = 16 * (blen x / 16) /\ length (snd (cbc_dec iv x)) = 16%nat.
-Proof. exact (cbc_length dec_step dec_step_len x iv Hiv). Qed.
-
-(* CBC decryption inverts CBC encryption on whole blocks *)
-Lemma cbc_dec_enc_n : forall (n : nat) (x iv : bytes)
-  (Hx : length x = (16 * n)%nat) (Hiv : length iv = 16%nat),
-  fst (cbc_dec iv (fst (cbc_enc iv x))) = x.
-Proof.
-  induction n as [|n IH]; intros x iv Hx Hiv.
-  - destruct x as [|? x]; [reflexivity | simpl in Hx; lia].
-  - destruct (split_block x) as (blk & rest & -> & Hb); [lia|].
-    rewrite app_length in Hx.
-    destruct (enc_step_len iv blk Hiv Hb) as [Hc _].
-    unfold cbc_enc, cbc_dec in *.
-    rewrite (cbc_cons enc_step iv blk rest Hb). cbn [fst snd].
-    set (c := Eb (xor_bytes blk iv)) in *.
-    change (fst (enc_step iv blk)) with c in *. change (snd (enc_step iv blk)) with c.
-    rewrite (cbc_cons dec_step iv c _ Hc). cbn [fst snd].
-    change (fst (dec_step iv c)) with (xor_bytes (Db c) iv).
-    change (snd (dec_step iv c)) with c.
-    rewrite (IH rest c) by (try exact Hc; lia).
-    subst c. rewrite Db_Eb by (rewrite xor_bytes_length, Hiv, Hb; reflexivity).
-    rewrite xor_bytes_cancel by lia. reflexivity.
-Qed.
-
-Theorem cbc_dec_enc (iv x : bytes) (Hiv : length iv = 16%nat) (Hx : blen x mod 16 = 0) :
-  fst (cbc_dec iv (fst (cbc_enc iv x))) = x.
-Proof. destruct (aligned_blocks x Hx) as [n Hn]. exact (cbc_dec_enc_n n x iv Hn Hiv). Qed.
 
 (* ---------------------------------------------------------------------- *)
-(* 2.8 One call of compress(): it encrypts the longest block-aligned       *)
-(*     prefix A of buf ++ data and keeps the rest (Theorem 2: the residue  *)
-(*     invariant is  len(buf) < 16).                                       *)
+(* 2.7 One call of compress(): it encrypts the longest block-aligned      *)
+(*     prefix A of buf ++ data and keeps the rest (Theorem 2: the residue *)
+(*     invariant is  len(buf) < 16).                                      *)
 (* ---------------------------------------------------------------------- *)
 
 Lemma aes_compress_step (st : cstate) (d : bytes) (Hb : blen (cbuf st) < 16) :
   exists A : bytes,
-    cbuf st ++ d = A ++ cbuf (fst (aes_compress st d)) /\
+    cbuf st ++ d = A ++ cbuf (fst (aes_compress Eb st d)) /\
     blen A mod 16 = 0 /\
-    blen (cbuf (fst (aes_compress st d))) < 16 /\
-    snd (aes_compress st d) = fst (cbc_enc (ccst st) A) /\
-    ccst (fst (aes_compress st d)) = snd (cbc_enc (ccst st) A).
+    blen (cbuf (fst (aes_compress Eb st d))) < 16 /\
+    snd (aes_compress Eb st d) = fst (cbc_enc Eb (ccst st) A) /\
+    ccst (fst (aes_compress Eb st d)) = snd (cbc_enc Eb (ccst st) A).
 Proof.
   destruct st as [buf c]; cbn [cbuf ccst] in *.
   unfold aes_compress, buf_len, buf_add, buf_view, buf_reset, buf_set, cipher_encrypt.
@@ -822,7 +785,7 @@ Proof.
     destruct (Z.eqb_spec (cur mod 16) 0) as [Hal|Hal]; cbn [andb].
   - (* aligned *)
     exists (buf ++ d).
-    destruct (cbc_enc c (buf ++ d)) as [out c1]. cbn [fst snd cbuf ccst].
+    destruct (cbc_enc Eb c (buf ++ d)) as [out c1]. cbn [fst snd cbuf ccst].
     rewrite app_nil_r, blen_app. change (blen []) with 0. repeat split; auto; lia.
   - (* not aligned, more than one block *)
     destruct (Z.ltb_spec 16 cur) as [H17|H17].
@@ -830,7 +793,7 @@ Proof.
     set (k := 16 * (cur / 16) - blen buf).
     assert (Hk : 0 <= k <= blen d) by (subst k cur; Z.div_mod_to_equations; lia).
     exists (buf ++ py_slice_to d k).
-    destruct (cbc_enc c (buf ++ py_slice_to d k)) as [out c1]. cbn [fst snd cbuf ccst].
+    destruct (cbc_enc Eb c (buf ++ py_slice_to d k)) as [out c1]. cbn [fst snd cbuf ccst].
     rewrite <- app_assoc, py_slice_cat, blen_app.
     rewrite (py_slice_to_len d k Hk), (py_slice_from_len d k Hk).
     repeat split; auto; subst k cur; Z.div_mod_to_equations; lia.
@@ -845,57 +808,61 @@ Qed.
 
 (* Theorem 2, residue invariant *)
 Theorem aes_compress_residue (st : cstate) (d : bytes) (Hb : blen (cbuf st) < 16) :
-  blen (cbuf (fst (aes_compress st d))) < 16 /\
-  blen (cbuf (fst (aes_compress st d))) = (blen (cbuf st) + blen d) mod 16.
+  blen (cbuf (fst (aes_compress Eb st d))) < 16 /\
+  blen (cbuf (fst (aes_compress Eb st d))) = (blen (cbuf st) + blen d) mod 16.
 Proof.
   destruct (aes_compress_step st d Hb) as (A & Hcat & HA & Hlt & _).
   split; [exact Hlt|].
   apply (f_equal blen) in Hcat. rewrite !blen_app in Hcat.
-  pose proof (blen_nonneg (cbuf (fst (aes_compress st d)))).
+  pose proof (blen_nonneg (cbuf (fst (aes_compress Eb st d)))).
   Z.div_mod_to_equations. lia.
 Qed.
 
 Theorem compress_all_residue : forall (chunks : list bytes) (st : cstate)
   (Hb : blen (cbuf st) < 16),
-  blen (cbuf (fst (compress_all st chunks))) < 16.
+  blen (cbuf (fst (compress_all Eb st chunks))) < 16.
 Proof.
   induction chunks as [|d rest IH]; intros st Hb; simpl; [exact Hb|].
-  destruct (aes_compress st d) as [st1 o1] eqn:E1.
+  destruct (aes_compress Eb st d) as [st1 o1] eqn:E1.
   pose proof (aes_compress_residue st d Hb) as [H1 _]. rewrite E1 in H1. cbn [fst] in H1.
   specialize (IH st1 H1).
-  destruct (compress_all st1 rest) as [st2 o2]. exact IH.
+  destruct (compress_all Eb st1 rest) as [st2 o2]. exact IH.
 Qed.
+
+Corollary compress_all_residue_init (iv : bytes) (chunks : list bytes) :
+  blen (cbuf (fst (compress_all Eb (cinit iv) chunks))) < 16.
+Proof. apply compress_all_residue. cbn [cinit cbuf]. reflexivity. Qed.
 
 (* flush() encrypts pad16 of the residue *)
 Lemma aes_flush_spec (st : cstate) :
-  snd (aes_flush st) = fst (cbc_enc (ccst st) (pad16 (cbuf st))) /\
-  cbuf (fst (aes_flush st)) = [].
+  snd (aes_flush Eb st) = fst (cbc_enc Eb (ccst st) (pad16 (cbuf st))) /\
+  cbuf (fst (aes_flush Eb st)) = [].
 Proof.
   destruct st as [buf c].
   unfold aes_flush, buf_len, buf_add, buf_view, buf_reset, cipher_encrypt. cbn [cbuf ccst].
   rewrite land15.
   destruct (Z.ltb_spec 0 (blen buf)) as [H|H].
-  - fold (pad16 buf). destruct (cbc_enc c (pad16 buf)) as [out c1]. auto.
+  - fold (pad16 buf). destruct (cbc_enc Eb c (pad16 buf)) as [out c1]. auto.
   - pose proof (blen_nonneg buf). rewrite (blen_zero_nil buf) by lia.
     rewrite pad16_nil, cbc_enc_nil. auto.
 Qed.
 
 (* ---------------------------------------------------------------------- *)
-(* 2.9 Theorem 3: compress chunking                                        *)
+(* 2.8 Theorem 3: compress chunking                                       *)
 (* ---------------------------------------------------------------------- *)
 
 Lemma compress_run_gen : forall (chunks : list bytes) (st : cstate)
   (Hb : blen (cbuf st) < 16),
-  snd (compress_all st chunks) ++ snd (aes_flush (fst (compress_all st chunks))) =
-  fst (cbc_enc (ccst st) (pad16 (cbuf st ++ concat chunks))).
+  snd (compress_all Eb st chunks) ++ snd (aes_flush Eb (fst (compress_all Eb st chunks))) =
+  fst (cbc_enc Eb (ccst st) (pad16 (cbuf st ++ concat chunks))).
 Proof.
   induction chunks as [|d rest IH]; intros st Hb.
   - simpl. rewrite app_nil_r. apply aes_flush_spec.
   - cbn [compress_all concat].
     destruct (aes_compress_step st d Hb) as (A & Hcat & HA & Hlt & Hout & Hcst).
-    destruct (aes_compress st d) as [st1 o1]. cbn [fst snd] in *.
+    destruct (aes_compress Eb st d) as [st1 o1]. cbn [fst snd] in *.
     specialize (IH st1 Hlt).
-    destruct (compress_all st1 rest) as [st2 o2]. cbn [fst snd] in *.
+    destruct (compress_all Eb st1 rest) as [st2 o2]. cbn [fst snd] in *.
     rewrite <- app_assoc, IH.
     rewrite (app_assoc (cbuf st)), Hcat, <- app_assoc.
     rewrite (pad16_app A _ HA), (cbc_enc_app _ A _ HA). cbn [fst].
@@ -903,22 +870,724 @@ Proof.
 Qed.
 
 Theorem aes_compress_chunking : forall (iv : bytes) (chunks : list bytes),
-  let '(st, out) := compress_all (cinit iv) chunks in
-  let '(_, tail) := aes_flush st in
-  out ++ tail = fst (cbc_enc iv (pad16 (concat chunks))).
+  let '(st, out) := compress_all Eb (cinit iv) chunks in
+  let '(_, tail) := aes_flush Eb st in
+  out ++ tail = fst (cbc_enc Eb iv (pad16 (concat chunks))).
 Proof.
   intros iv chunks.
   pose proof (compress_run_gen chunks (cinit iv)) as H. cbn [cinit cbuf ccst] in H.
-  destruct (compress_all (cinit iv) chunks) as [st out]. cbn [fst snd] in H.
-  destruct (aes_flush st) as [st' tail]. cbn [snd] in H.
+  destruct (compress_all Eb (cinit iv) chunks) as [st out]. cbn [fst snd] in H.
+  destruct (aes_flush Eb st) as [st' tail]. cbn [snd] in H.
   apply H. reflexivity.
 Qed.
 
 Corollary compress_stream_spec (iv : bytes) (chunks : list bytes) :
-  compress_stream iv chunks = fst (cbc_enc iv (pad16 (concat chunks))).
+  compress_stream Eb iv chunks = fst (cbc_enc Eb iv (pad16 (concat chunks))).
 Proof.
   unfold compress_stream. pose proof (aes_compress_chunking iv chunks) as H.
-  destruct (compress_all (cinit iv) chunks) as [st out].
-  destruct (aes_flush st) as [st' tail]. exact H.
+  destruct (compress_all Eb (cinit iv) chunks) as [st out].
+  destruct (aes_flush Eb st) as [st' tail]. exact H.
 Qed.
-End AES.
+
+(* ---------------------------------------------------------------------- *)
+(* 2.9 Checked compressor: pycryptodome never raises ValueError here      *)
+(* ---------------------------------------------------------------------- *)
+
+Lemma cipher_encrypt_chk_ok (c x : bytes) (H : blen x mod 16 = 0) :
+  cipher_encrypt_chk Eb c x = Ok (cipher_encrypt Eb c x).
+Proof. unfold cipher_encrypt_chk. rewrite (proj2 (aligned16_iff x) H). reflexivity. Qed.
+
+(* The compressor never hands unaligned data to the cipher. *)
+Theorem aes_compress_chk_ok (st : cstate) (d : bytes) (Hb : blen (cbuf st) < 16) :
+  aes_compress_chk Eb st d = Ok (aes_compress Eb st d).
+Proof.
+  destruct st as [buf c]; cbn [cbuf] in Hb.
+  unfold aes_compress_chk, aes_compress, buf_len, buf_add, buf_view. cbn [cbuf ccst].
+  rewrite land15, land_not15.
+  pose proof (blen_nonneg buf) as Hbn. pose proof (blen_nonneg d) as Hdn.
+  set (cur := blen buf + blen d).
+  destruct (Z.leb_spec 16 cur) as [H16|H16];
+    destruct (Z.eqb_spec (cur mod 16) 0) as [Hal|Hal]; cbn [andb].
+  - rewrite cipher_encrypt_chk_ok by (rewrite blen_app; exact Hal).
+    cbn [bind]. destruct (cipher_encrypt Eb c (buf ++ d)); reflexivity.
+  - destruct (Z.ltb_spec 16 cur) as [H17|H17]; [|reflexivity].
+    set (k := 16 * (cur / 16) - blen buf).
+    assert (Hk : 0 <= k <= blen d) by (subst k cur; Z.div_mod_to_equations; lia).
+    rewrite cipher_encrypt_chk_ok.
+    + cbn [bind]. destruct (cipher_encrypt Eb c (buf ++ py_slice_to d k)); reflexivity.
+    + rewrite blen_app, (py_slice_to_len d k Hk). subst k.
+      replace (blen buf + (16 * (cur / 16) - blen buf)) with (16 * (cur / 16)) by lia.
+      apply mult16_mod.
+  - destruct (Z.ltb_spec 16 cur) as [H17|H17]; [lia|reflexivity].
+  - destruct (Z.ltb_spec 16 cur) as [H17|H17]; [lia|reflexivity].
+Qed.
+
+Theorem aes_flush_chk_ok (st : cstate) : aes_flush_chk Eb st = Ok (aes_flush Eb st).
+Proof.
+  destruct st as [buf c].
+  unfold aes_flush_chk, aes_flush, buf_len, buf_add, buf_view. cbn [cbuf ccst].
+  rewrite land15. destruct (0 <? blen buf); [|reflexivity].
+  fold (pad16 buf). rewrite cipher_encrypt_chk_ok by apply pad16_aligned.
+  cbn [bind]. destruct (cipher_encrypt Eb c (pad16 buf)); reflexivity.
+Qed.
+
+
+(* ---------------------------------------------------------------------- *)
+(* 2.10 Theorem 6 (encryption side): length facts                         *)
+(* ---------------------------------------------------------------------- *)
+
+Hypothesis Eb_len : forall x : bytes, length x = 16%nat -> length (Eb x) = 16%nat.
+
+Lemma enc_step_len (iv blk : bytes) (Hiv : length iv = 16%nat) (Hb : length blk = 16%nat) :
+  length (fst (enc_step Eb iv blk)) = 16%nat /\ length (snd (enc_step Eb iv blk)) = 16%nat.
+Proof.
+  unfold enc_step; simpl.
+  assert (L : length (Eb (xor_bytes blk iv)) = 16%nat).
+  { apply Eb_len. rewrite xor_bytes_length, Hiv, Hb. reflexivity. }
+  auto.
+Qed.
+
+(* output length = the whole blocks of the input; chaining value stays 16 bytes *)
+Lemma cbc_enc_length (iv x : bytes) (Hiv : length iv = 16%nat) :
+  blen (fst (cbc_enc Eb iv x)) = 16 * (blen x / 16) /\ length (snd (cbc_enc Eb iv x)) = 16%nat.
+Proof. exact (cbc_length (enc_step Eb) enc_step_len x iv Hiv). Qed.
+
+Theorem aes_compress_out_len (st : cstate) (d : bytes) (Hc : length (ccst st) = 16%nat) :
+  blen (snd (aes_compress Eb st d)) mod 16 = 0 /\
+  length (ccst (fst (aes_compress Eb st d))) = 16%nat.
+Proof.
+  destruct st as [buf c]; cbn [ccst] in Hc.
+  unfold aes_compress, cipher_encrypt. cbn [cbuf ccst].
+  destruct ((16 <=? buf_len buf + blen d) && (Z.land (buf_len buf + blen d) 15 =? 0));
+    [|destruct (16 <? buf_len buf + blen d)].
+  - match goal with |- context [cbc_enc Eb c ?x] =>
+      destruct (cbc_enc_length c x Hc) as [H1 H2]; destruct (cbc_enc Eb c x) end.
+    cbn [fst snd ccst] in *. rewrite H1. split; [apply mult16_mod | exact H2].
+  - match goal with |- context [cbc_enc Eb c ?x] =>
+      destruct (cbc_enc_length c x Hc) as [H1 H2]; destruct (cbc_enc Eb c x) end.
+    cbn [fst snd ccst] in *. rewrite H1. split; [apply mult16_mod | exact H2].
+  - cbn [fst snd ccst]. split; [reflexivity | exact Hc].
+Qed.
+
+Theorem aes_flush_out_len (st : cstate) (Hc : length (ccst st) = 16%nat) :
+  blen (snd (aes_flush Eb st)) mod 16 = 0.
+Proof.
+  destruct (aes_flush_spec st) as [H _]. rewrite H.
+  destruct (cbc_enc_length (ccst st) (pad16 (cbuf st)) Hc) as [H1 _]. rewrite H1.
+  apply mult16_mod.
+Qed.
+
+(* total output of compress()* + flush() = length of the padded input *)
+Theorem compress_stream_length (iv : bytes) (chunks : list bytes)
+  (Hiv : length iv = 16%nat) :
+  blen (compress_stream Eb iv chunks) = blen (pad16 (concat chunks)).
+Proof.
+  rewrite compress_stream_spec.
+  destruct (cbc_enc_length iv (pad16 (concat chunks)) Hiv) as [H _]. rewrite H.
+  pose proof (pad16_aligned (concat chunks)). Z.div_mod_to_equations. lia.
+Qed.
+
+Theorem aes_compress_total_length : forall (iv : bytes) (chunks : list bytes)
+  (Hiv : length iv = 16%nat),
+  let '(st, out) := compress_all Eb (cinit iv) chunks in
+  let '(_, tail) := aes_flush Eb st in
+  blen (out ++ tail) = blen (pad16 (concat chunks)).
+Proof.
+  intros iv chunks Hiv. pose proof (compress_stream_length iv chunks Hiv) as H.
+  unfold compress_stream in H.
+  destruct (compress_all Eb (cinit iv) chunks) as [st out].
+  destruct (aes_flush Eb st) as [st' tail]. exact H.
+Qed.
+
+End Enc.
+
+(* ---------------------------------------------------------------------- *)
+(* 2.11 DECRYPTION SIDE.  Theorem 1 (cbc_dec_app).  No hypothesis needed  *)
+(*      for Theorems 1 and 4; the length fact needs Db_len (2.15).        *)
+(* ---------------------------------------------------------------------- *)
+
+Section Dec.
+Variable Db : bytes -> bytes.
+
+Theorem cbc_dec_app (iv a b : bytes) (Ha : blen a mod 16 = 0) :
+  cbc_dec Db iv (a ++ b) =
+  (fst (cbc_dec Db iv a) ++ fst (cbc_dec Db (snd (cbc_dec Db iv a)) b),
+   snd (cbc_dec Db (snd (cbc_dec Db iv a)) b)).
+Proof. exact (cbc_app (dec_step Db) iv a b Ha). Qed.
+
+Lemma cbc_dec_nil (iv : bytes) : cbc_dec Db iv [] = ([], iv).
+Proof. reflexivity. Qed.
+
+(* ---------------------------------------------------------------------- *)
+(* 2.12 One call of decompress()                                          *)
+(*      Precondition of a "good" call:  len(buf) < 16  and                *)
+(*      (len(buf) = 0  or  len(buf) + len(data) >= 16).                   *)
+(* ---------------------------------------------------------------------- *)
+
+
+Lemma aes_decompress_step (st : dstate) (d : bytes)
+  (Hb : blen (dbuf st) < 16) (Hok : dec_call_ok st d) :
+  exists A : bytes,
+    dbuf st ++ d = A ++ dbuf (fst (aes_decompress Db st d)) /\
+    blen A mod 16 = 0 /\
+    blen (dbuf (fst (aes_decompress Db st d))) < 16 /\
+    snd (aes_decompress Db st d) = fst (cbc_dec Db (dcst st) A) /\
+    dcst (fst (aes_decompress Db st d)) = snd (cbc_dec Db (dcst st) A).
+Proof.
+  destruct st as [buf c]; unfold dec_call_ok in Hok; cbn [dbuf dcst] in *.
+  unfold aes_decompress, buf_len, buf_add, buf_view, buf_reset, buf_set, cipher_decrypt.
+  cbn [dbuf dcst].
+  rewrite land15, land_not15.
+  pose proof (blen_nonneg buf) as Hbn. pose proof (blen_nonneg d) as Hdn.
+  set (cur := blen buf + blen d) in *.
+  destruct (Z.ltb_spec 0 (blen d)) as [Hd|Hd];
+    destruct (Z.eqb_spec (cur mod 16) 0) as [Hal|Hal]; cbn [andb].
+  - (* data, aligned *)
+    exists (buf ++ d).
+    destruct (cbc_dec Db c (buf ++ d)) as [out c1]. cbn [fst snd dbuf dcst].
+    rewrite app_nil_r, blen_app. change (blen []) with 0. repeat split; auto; lia.
+  - (* data, not aligned *)
+    set (k := 16 * (cur / 16) - blen buf).
+    assert (Hk : 0 <= k <= blen d) by (subst k cur; Z.div_mod_to_equations; lia).
+    exists (buf ++ py_slice_to d k).
+    destruct (cbc_dec Db c (buf ++ py_slice_to d k)) as [out c1]. cbn [fst snd dbuf dcst].
+    rewrite <- app_assoc, py_slice_cat, blen_app.
+    rewrite (py_slice_to_len d k Hk), (py_slice_from_len d k Hk).
+    repeat split; auto; subst k cur; Z.div_mod_to_equations; lia.
+  - (* no data: the buffer must be empty *)
+    assert (Hb0 : blen buf = 0) by lia.
+    destruct (Z.eqb_spec (blen buf) 0) as [_|Hne]; [|lia].
+    exists []. rewrite cbc_dec_nil. cbn [fst snd dbuf dcst].
+    assert (Hd0 : blen d = 0) by lia.
+    rewrite (blen_zero_nil d Hd0), app_nil_r. repeat split; auto.
+  - exfalso. assert (cur = 0) by lia. apply Hal. replace cur with 0 by lia. reflexivity.
+Qed.
+
+Lemma aes_decompress_residue (st : dstate) (d : bytes)
+  (Hb : blen (dbuf st) < 16) (Hok : dec_call_ok st d) :
+  blen (dbuf (fst (aes_decompress Db st d))) < 16 /\
+  blen (dbuf (fst (aes_decompress Db st d))) = (blen (dbuf st) + blen d) mod 16.
+Proof.
+  destruct (aes_decompress_step st d Hb Hok) as (A & Hcat & HA & Hlt & _).
+  split; [exact Hlt|].
+  apply (f_equal blen) in Hcat. rewrite !blen_app in Hcat.
+  pose proof (blen_nonneg (dbuf (fst (aes_decompress Db st d)))).
+  Z.div_mod_to_equations. lia.
+Qed.
+
+(* The residue stays below 16 bytes after ANY call, good or bad. *)
+Lemma aes_decompress_residue_any (st : dstate) (d : bytes) (Hb : blen (dbuf st) < 16) :
+  blen (dbuf (fst (aes_decompress Db st d))) < 16.
+Proof.
+  pose proof (blen_nonneg (dbuf st)) as Hbn. pose proof (blen_nonneg d) as Hdn.
+  destruct (Z.eq_dec (blen (dbuf st)) 0) as [H0|H0];
+    [apply aes_decompress_residue; [exact Hb | left; exact H0]|].
+  destruct (Z_le_gt_dec 16 (blen (dbuf st) + blen d)) as [H16|H16];
+    [apply aes_decompress_residue; [exact Hb | right; exact H16]|].
+  destruct st as [buf c]; cbn [dbuf] in *.
+  unfold aes_decompress, buf_len, buf_add, buf_view, buf_reset, buf_set, cipher_decrypt.
+  cbn [dbuf dcst].
+  destruct ((0 <? blen d) && (Z.land (blen buf + blen d) 15 =? 0)).
+  - match goal with |- context [cbc_dec Db c ?x] => destruct (cbc_dec Db c x) end.
+    cbn [fst dbuf]. change (blen []) with 0. lia.
+  - destruct (0 <? blen d).
+    + match goal with |- context [cbc_dec Db c ?x] => destruct (cbc_dec Db c x) end.
+      cbn [fst dbuf].
+      match goal with |- blen (py_slice_from d ?k) < 16 =>
+        pose proof (py_slice_from_le d k) end. lia.
+    + destruct (blen buf =? 0); [cbn [fst dbuf]; exact Hb|].
+      match goal with |- context [cbc_dec Db c ?x] => destruct (cbc_dec Db c x) end.
+      cbn [fst dbuf]. change (blen []) with 0. lia.
+Qed.
+
+(* the final call decompress(b""): decrypts pad16 of the residue *)
+Lemma aes_decompress_final (st : dstate) :
+  snd (aes_decompress Db st []) = fst (cbc_dec Db (dcst st) (pad16 (dbuf st))).
+Proof.
+  destruct st as [buf c].
+  unfold aes_decompress, buf_len, buf_add, buf_view, buf_reset, cipher_decrypt.
+  cbn [dbuf dcst]. change (blen []) with 0. rewrite !land15.
+  change (0 <? 0) with false. cbn [andb].
+  destruct (Z.eqb_spec (blen buf) 0) as [H|H].
+  - rewrite (blen_zero_nil buf H), pad16_nil, cbc_dec_nil. reflexivity.
+  - fold (pad16 buf). destruct (cbc_dec Db c (pad16 buf)) as [out c1]. reflexivity.
+Qed.
+
+(* ---------------------------------------------------------------------- *)
+(* 2.13 Theorem 4: decompress chunking                                    *)
+(* ---------------------------------------------------------------------- *)
+
+Lemma decompress_run_gen : forall (chunks : list bytes) (st : dstate)
+  (Hb : blen (dbuf st) < 16)
+  (Hok : dec_chunks_ok (blen (dbuf st)) chunks = true),
+  snd (decompress_all Db st chunks) ++ snd (aes_decompress Db (fst (decompress_all Db st chunks)) []) =
+  fst (cbc_dec Db (dcst st) (pad16 (dbuf st ++ concat chunks))).
+Proof.
+  induction chunks as [|d rest IH]; intros st Hb Hok.
+  - simpl. rewrite app_nil_r. apply aes_decompress_final.
+  - cbn [decompress_all concat]. cbn [dec_chunks_ok] in Hok.
+    apply andb_prop in Hok as [Hd Hrest].
+    assert (Hcall : dec_call_ok st d).
+    { unfold dec_call_ok. apply orb_prop in Hd as [Hd|Hd]; [left|right]; lia. }
+    destruct (aes_decompress_residue st d Hb Hcall) as [_ Hres].
+    destruct (aes_decompress_step st d Hb Hcall) as (A & Hcat & HA & Hlt & Hout & Hcst).
+    destruct (aes_decompress Db st d) as [st1 o1]. cbn [fst snd] in *.
+    rewrite <- Hres in Hrest.
+    specialize (IH st1 Hlt Hrest).
+    destruct (decompress_all Db st1 rest) as [st2 o2]. cbn [fst snd] in *.
+    rewrite <- app_assoc, IH.
+    rewrite (app_assoc (dbuf st)), Hcat, <- app_assoc.
+    rewrite (pad16_app A _ HA), (cbc_dec_app _ A _ HA). cbn [fst].
+    rewrite Hout, Hcst. reflexivity.
+Qed.
+
+(* Most general form: the chunk schedule only has to satisfy dec_chunks_ok
+   (a chunk may meet a non-empty residue only if residue + chunk >= 16). *)
+Theorem aes_decompress_chunking : forall (iv : bytes) (chunks : list bytes)
+  (Hok : dec_chunks_ok 0 chunks = true),
+  let '(st, out) := decompress_all Db (dinit iv) chunks in
+  let '(_, tail) := aes_decompress Db st [] in
+  out ++ tail = fst (cbc_dec Db iv (pad16 (concat chunks))).
+Proof.
+  intros iv chunks Hok.
+  pose proof (decompress_run_gen chunks (dinit iv)) as H. cbn [dinit dbuf dcst] in H.
+  destruct (decompress_all Db (dinit iv) chunks) as [st out]. cbn [fst snd] in H.
+  destruct (aes_decompress Db st []) as [st' tail]. cbn [snd] in H.
+  apply H; [reflexivity | exact Hok].
+Qed.
+
+Lemma dec_chunks_ok_ge16 : forall (chunks : list bytes) (r : Z)
+  (Hr : 0 <= r) (Hall : Forall (fun d => 16 <= blen d) chunks),
+  dec_chunks_ok r chunks = true.
+Proof.
+  induction chunks as [|d rest IH]; intros r Hr Hall; [reflexivity|].
+  inversion Hall as [|? ? Hd Hrest]; subst. cbn [dec_chunks_ok].
+  rewrite (IH ((r + blen d) mod 16)); [|apply Z.mod_pos_bound; lia|exact Hrest].
+  rewrite andb_true_r. apply orb_true_iff. right. lia.
+Qed.
+
+(* The form asked for: every chunk has at least 16 bytes. *)
+Corollary aes_decompress_chunking_ge16 : forall (iv : bytes) (chunks : list bytes)
+  (Hall : Forall (fun d => 16 <= blen d) chunks),
+  let '(st, out) := decompress_all Db (dinit iv) chunks in
+  let '(_, tail) := aes_decompress Db st [] in
+  out ++ tail = fst (cbc_dec Db iv (pad16 (concat chunks))).
+Proof.
+  intros iv chunks Hall. apply aes_decompress_chunking.
+  apply dec_chunks_ok_ge16; [lia | exact Hall].
+Qed.
+
+Corollary decompress_stream_spec (iv : bytes) (chunks : list bytes)
+  (Hok : dec_chunks_ok 0 chunks = true) :
+  decompress_stream Db iv chunks = fst (cbc_dec Db iv (pad16 (concat chunks))).
+Proof.
+  unfold decompress_stream. pose proof (aes_decompress_chunking iv chunks Hok) as H.
+  destruct (decompress_all Db (dinit iv) chunks) as [st out].
+  destruct (aes_decompress Db st []) as [st' tail]. exact H.
+Qed.
+
+(* ---------------------------------------------------------------------- *)
+(* 2.14 Checked decompressor: exactly when does pycryptodome raise?       *)
+(* ---------------------------------------------------------------------- *)
+
+
+Lemma cipher_decrypt_chk_ok (c x : bytes) (H : blen x mod 16 = 0) :
+  cipher_decrypt_chk Db c x = Ok (cipher_decrypt Db c x).
+Proof. unfold cipher_decrypt_chk. rewrite (proj2 (aligned16_iff x) H). reflexivity. Qed.
+
+Lemma cipher_decrypt_chk_err (c x : bytes) (H : blen x mod 16 <> 0) :
+  cipher_decrypt_chk Db c x = Err EOther.
+Proof.
+  unfold cipher_decrypt_chk. destruct (aligned16 x) eqn:E; [|reflexivity].
+  apply aligned16_iff in E. contradiction.
+Qed.
+
+(* A good call of decompress() does not raise ... *)
+Theorem aes_decompress_chk_ok (st : dstate) (d : bytes)
+  (Hb : blen (dbuf st) < 16) (Hok : dec_call_ok st d) :
+  aes_decompress_chk Db st d = Ok (aes_decompress Db st d).
+Proof.
+  destruct st as [buf c]; unfold dec_call_ok in Hok; cbn [dbuf] in *.
+  unfold aes_decompress_chk, aes_decompress, buf_len, buf_add, buf_view. cbn [dbuf dcst].
+  rewrite land15, land_not15.
+  pose proof (blen_nonneg buf) as Hbn. pose proof (blen_nonneg d) as Hdn.
+  set (cur := blen buf + blen d) in *.
+  destruct (Z.ltb_spec 0 (blen d)) as [Hd|Hd];
+    destruct (Z.eqb_spec (cur mod 16) 0) as [Hal|Hal]; cbn [andb].
+  - rewrite cipher_decrypt_chk_ok by (rewrite blen_app; exact Hal).
+    cbn [bind]. destruct (cipher_decrypt Db c (buf ++ d)); reflexivity.
+  - set (k := 16 * (cur / 16) - blen buf).
+    assert (Hk : 0 <= k <= blen d) by (subst k cur; Z.div_mod_to_equations; lia).
+    rewrite cipher_decrypt_chk_ok.
+    + cbn [bind]. destruct (cipher_decrypt Db c (buf ++ py_slice_to d k)); reflexivity.
+    + rewrite blen_app, (py_slice_to_len d k Hk). subst k.
+      replace (blen buf + (16 * (cur / 16) - blen buf)) with (16 * (cur / 16)) by lia.
+      apply mult16_mod.
+  - destruct (Z.eqb_spec (blen buf) 0) as [_|Hne]; [reflexivity | lia].
+  - destruct (Z.eqb_spec (blen buf) 0) as [_|Hne]; [reflexivity | lia].
+Qed.
+
+(* ... and the final call decompress(b"") never raises *)
+Theorem aes_decompress_chk_final (st : dstate) :
+  aes_decompress_chk Db st [] = Ok (aes_decompress Db st []).
+Proof.
+  destruct st as [buf c].
+  unfold aes_decompress_chk, aes_decompress, buf_len, buf_add, buf_view. cbn [dbuf dcst].
+  change (blen []) with 0. change (0 <? 0) with false. cbn [andb]. rewrite !land15.
+  destruct (blen buf =? 0); [reflexivity|].
+  fold (pad16 buf). rewrite cipher_decrypt_chk_ok by apply pad16_aligned.
+  cbn [bind]. destruct (cipher_decrypt Db c (pad16 buf)); reflexivity.
+Qed.
+
+(* ... while EVERY bad call with data raises: a non-empty chunk that meets a
+   non-empty residue without completing a block makes `nextpos - buflen`
+   negative; data[:-buflen] is then added and a non-multiple of 16 is handed
+   to cipher.decrypt -> ValueError.                                         *)
+Theorem aes_decompress_chk_err (st : dstate) (d : bytes)
+  (Hb0 : 0 < blen (dbuf st)) (Hd0 : 0 < blen d)
+  (Hshort : blen (dbuf st) + blen d < 16) :
+  aes_decompress_chk Db st d = Err EOther.
+Proof.
+  destruct st as [buf c]; cbn [dbuf] in *.
+  unfold aes_decompress_chk, buf_len, buf_add, buf_view. cbn [dbuf dcst].
+  rewrite land15, land_not15.
+  set (cur := blen buf + blen d) in *.
+  destruct (Z.ltb_spec 0 (blen d)) as [Hd|Hd]; [|lia].
+  destruct (Z.eqb_spec (cur mod 16) 0) as [Hal|Hal]; cbn [andb].
+  { exfalso. subst cur. Z.div_mod_to_equations. lia. }
+  rewrite cipher_decrypt_chk_err; [reflexivity|].
+  replace (cur / 16) with 0 by (subst cur; Z.div_mod_to_equations; lia).
+  rewrite blen_app. unfold py_slice_to, py_index.
+  destruct (Z.ltb_spec (16 * 0 - blen buf) 0) as [Hk|Hk]; [|lia].
+  unfold blen in *. rewrite firstn_length. Z.div_mod_to_equations. lia.
+Qed.
+
+(* an empty chunk on a non-empty residue pads prematurely (no exception) *)
+Lemma aes_decompress_empty_midstream (st : dstate) (Hb0 : 0 < blen (dbuf st)) :
+  snd (aes_decompress Db st []) = fst (cbc_dec Db (dcst st) (pad16 (dbuf st))) /\
+  dbuf (fst (aes_decompress Db st [])) = [].
+Proof.
+  split; [apply aes_decompress_final|].
+  destruct st as [buf c]; cbn [dbuf] in *.
+  unfold aes_decompress, buf_len, buf_add, buf_view, buf_reset, cipher_decrypt.
+  cbn [dbuf dcst]. change (blen []) with 0. change (0 <? 0) with false. cbn [andb].
+  destruct (Z.eqb_spec (blen buf) 0) as [H|H]; [lia|].
+  match goal with |- context [cbc_dec Db c ?x] => destruct (cbc_dec Db c x) end. reflexivity.
+Qed.
+
+
+(* a whole good schedule never raises *)
+Theorem decompress_all_chk_ok : forall (chunks : list bytes) (st : dstate)
+  (Hb : blen (dbuf st) < 16)
+  (Hok : dec_chunks_ok (blen (dbuf st)) chunks = true),
+  decompress_all_chk Db st chunks = Ok (decompress_all Db st chunks).
+Proof.
+  induction chunks as [|d rest IH]; intros st Hb Hok; [reflexivity|].
+  cbn [decompress_all_chk decompress_all]. cbn [dec_chunks_ok] in Hok.
+  apply andb_prop in Hok as [Hd Hrest].
+  assert (Hcall : dec_call_ok st d).
+  { unfold dec_call_ok. apply orb_prop in Hd as [Hd|Hd]; [left|right]; lia. }
+  rewrite (aes_decompress_chk_ok st d Hb Hcall). cbn [bind].
+  destruct (aes_decompress_residue st d Hb Hcall) as [Hlt Hres].
+  destruct (aes_decompress Db st d) as [st1 o1]. cbn [fst] in *.
+  rewrite <- Hres in Hrest. rewrite (IH st1 Hlt Hrest). cbn [bind].
+  destruct (decompress_all Db st1 rest) as [st2 o2]. reflexivity.
+Qed.
+
+
+(* ---------------------------------------------------------------------- *)
+(* 2.15 Theorem 6 (decryption side): length fact                          *)
+(* ---------------------------------------------------------------------- *)
+
+Hypothesis Db_len : forall x : bytes, length x = 16%nat -> length (Db x) = 16%nat.
+
+Lemma dec_step_len (iv blk : bytes) (Hiv : length iv = 16%nat) (Hb : length blk = 16%nat) :
+  length (fst (dec_step Db iv blk)) = 16%nat /\ length (snd (dec_step Db iv blk)) = 16%nat.
+Proof.
+  unfold dec_step; simpl. split; [|exact Hb].
+  rewrite xor_bytes_length, Hiv, (Db_len blk Hb). reflexivity.
+Qed.
+
+Lemma cbc_dec_length (iv x : bytes) (Hiv : length iv = 16%nat) :
+  blen (fst (cbc_dec Db iv x)) = 16 * (blen x / 16) /\ length (snd (cbc_dec Db iv x)) = 16%nat.
+Proof. exact (cbc_length (dec_step Db) dec_step_len x iv Hiv). Qed.
+
+Theorem aes_decompress_out_len (st : dstate) (d : bytes) (Hc : length (dcst st) = 16%nat) :
+  blen (snd (aes_decompress Db st d)) mod 16 = 0 /\
+  length (dcst (fst (aes_decompress Db st d))) = 16%nat.
+Proof.
+  destruct st as [buf c]; cbn [dcst] in Hc.
+  unfold aes_decompress, cipher_decrypt. cbn [dbuf dcst].
+  destruct ((0 <? blen d) && (Z.land (buf_len buf + blen d) 15 =? 0));
+    [|destruct (0 <? blen d); [|destruct (buf_len buf =? 0)]].
+  - match goal with |- context [cbc_dec Db c ?x] =>
+      destruct (cbc_dec_length c x Hc) as [H1 H2]; destruct (cbc_dec Db c x) end.
+    cbn [fst snd dcst] in *. rewrite H1. split; [apply mult16_mod | exact H2].
+  - match goal with |- context [cbc_dec Db c ?x] =>
+      destruct (cbc_dec_length c x Hc) as [H1 H2]; destruct (cbc_dec Db c x) end.
+    cbn [fst snd dcst] in *. rewrite H1. split; [apply mult16_mod | exact H2].
+  - cbn [fst snd dcst]. split; [reflexivity | exact Hc].
+  - match goal with |- context [cbc_dec Db c ?x] =>
+      destruct (cbc_dec_length c x Hc) as [H1 H2]; destruct (cbc_dec Db c x) end.
+    cbn [fst snd dcst] in *. rewrite H1. split; [apply mult16_mod | exact H2].
+Qed.
+
+
+End Dec.
+
+(* ---------------------------------------------------------------------- *)
+(* 2.16 ROUND TRIP.  Needs Db_Eb and Eb_len (not Db_len).                 *)
+(* ---------------------------------------------------------------------- *)
+
+Section RoundTrip.
+Variable Eb Db : bytes -> bytes.
+Hypothesis Db_Eb : forall x : bytes, length x = 16%nat -> Db (Eb x) = x.
+Hypothesis Eb_len : forall x : bytes, length x = 16%nat -> length (Eb x) = 16%nat.
+
+(* CBC decryption inverts CBC encryption on whole blocks *)
+Lemma cbc_dec_enc_n : forall (n : nat) (x iv : bytes)
+  (Hx : length x = (16 * n)%nat) (Hiv : length iv = 16%nat),
+  fst (cbc_dec Db iv (fst (cbc_enc Eb iv x))) = x.
+Proof.
+  induction n as [|n IH]; intros x iv Hx Hiv.
+  - destruct x as [|? x]; [reflexivity | simpl in Hx; lia].
+  - destruct (split_block x) as (blk & rest & -> & Hb); [lia|].
+    rewrite app_length in Hx.
+    destruct (enc_step_len Eb Eb_len iv blk Hiv Hb) as [Hc _].
+    unfold cbc_enc, cbc_dec in *.
+    rewrite (cbc_cons (enc_step Eb) iv blk rest Hb). cbn [fst snd].
+    set (c := Eb (xor_bytes blk iv)) in *.
+    change (fst (enc_step Eb iv blk)) with c. change (snd (enc_step Eb iv blk)) with c.
+    rewrite (cbc_cons (dec_step Db) iv c _ Hc). cbn [fst snd].
+    change (fst (dec_step Db iv c)) with (xor_bytes (Db c) iv).
+    change (snd (dec_step Db iv c)) with c.
+    rewrite (IH rest c) by (try exact Hc; lia).
+    subst c. rewrite Db_Eb by (rewrite xor_bytes_length, Hiv, Hb; reflexivity).
+    rewrite xor_bytes_cancel by lia. reflexivity.
+Qed.
+
+Theorem cbc_dec_enc (iv x : bytes) (Hiv : length iv = 16%nat) (Hx : blen x mod 16 = 0) :
+  fst (cbc_dec Db iv (fst (cbc_enc Eb iv x))) = x.
+Proof. destruct (aligned_blocks x Hx) as [n Hn]. exact (cbc_dec_enc_n n x iv Hn Hiv). Qed.
+
+(* ---------------------------------------------------------------------- *)
+(* Corollary of Theorems 3 + 4 + Db (Eb x) = x                            *)
+(* ---------------------------------------------------------------------- *)
+
+Theorem aes_roundtrip_stream (iv : bytes) (pchunks cchunks : list bytes)
+  (Hiv : length iv = 16%nat)
+  (Hcat : concat cchunks = compress_stream Eb iv pchunks)
+  (Hok : dec_chunks_ok 0 cchunks = true) :
+  decompress_stream Db iv cchunks = pad16 (concat pchunks).
+Proof.
+  rewrite (decompress_stream_spec Db iv cchunks Hok), Hcat.
+  pose proof (compress_stream_length Eb Eb_len iv pchunks Hiv) as Hlen.
+  pose proof (pad16_aligned (concat pchunks)) as Hal.
+  rewrite pad16_id by (rewrite Hlen; exact Hal).
+  rewrite compress_stream_spec.
+  apply cbc_dec_enc; assumption.
+Qed.
+
+Theorem aes_roundtrip : forall (iv : bytes) (pchunks cchunks : list bytes)
+  (Hiv : length iv = 16%nat)
+  (Hok : dec_chunks_ok 0 cchunks = true),
+  let '(cs, cout) := compress_all Eb (cinit iv) pchunks in
+  let '(_, ctail) := aes_flush Eb cs in
+  concat cchunks = cout ++ ctail ->
+  let '(ds, dout) := decompress_all Db (dinit iv) cchunks in
+  let '(_, dtail) := aes_decompress Db ds [] in
+  dout ++ dtail = pad16 (concat pchunks).
+Proof.
+  intros iv pchunks cchunks Hiv Hok.
+  pose proof (aes_roundtrip_stream iv pchunks cchunks Hiv) as H.
+  unfold compress_stream, decompress_stream in H.
+  destruct (compress_all Eb (cinit iv) pchunks) as [cs cout].
+  destruct (aes_flush Eb cs) as [cs' ctail]. intro Hcat.
+  destruct (decompress_all Db (dinit iv) cchunks) as [ds dout].
+  destruct (aes_decompress Db ds []) as [ds' dtail].
+  exact (H Hcat Hok).
+Qed.
+
+End RoundTrip.
+
+(* ====================================================================== *)
+(* Part 3.  Toy instantiation, examples, refutations                      *)
+(* ====================================================================== *)
+
+(* A toy "block cipher": byte-wise xor with 90 (an involution).  It shows
+   that the hypotheses Db_Eb / Eb_len / Db_len are satisfiable and lets the
+   model be evaluated.                                                      *)
+Definition toyE (b : bytes) : bytes := map (fun x => Z.lxor x 90) b.
+Definition toyD (b : bytes) : bytes := toyE b.
+
+Lemma toy_Db_Eb (x : bytes) (H : length x = 16%nat) : toyD (toyE x) = x.
+Proof.
+  clear H. unfold toyD, toyE. rewrite map_map. rewrite <- (map_id x) at 2.
+  apply map_ext. intro a. rewrite Z.lxor_assoc. change (Z.lxor 90 90) with 0.
+  apply Z.lxor_0_r.
+Qed.
+
+Lemma toy_Eb_len (x : bytes) (H : length x = 16%nat) : length (toyE x) = 16%nat.
+Proof. unfold toyE. rewrite map_length. exact H. Qed.
+
+Lemma toy_Db_len (x : bytes) (H : length x = 16%nat) : length (toyD x) = 16%nat.
+Proof. exact (toy_Eb_len x H). Qed.
+
+Definition ex_iv : bytes := map Z.of_nat (seq 100 16).
+Definition ex_plain (n : nat) : bytes := map Z.of_nat (seq 1 n).
+
+(* Python slices with negative indices *)
+Example ex_slice_from_neg : py_slice_from [1;2;3;4;5] (-2) = [4;5].
+Proof. reflexivity. Qed.
+Example ex_slice_to_neg : py_slice_to [1;2;3;4;5] (-2) = [1;2;3].
+Proof. reflexivity. Qed.
+Example ex_slice_from_neg_clamped : py_slice_from [1;2] (-5) = [1;2].
+Proof. reflexivity. Qed.
+Example ex_slice_to_neg_clamped : py_slice_to [1;2] (-5) = [].
+Proof. reflexivity. Qed.
+Example ex_slice_to_big : py_slice_to [1;2] 7 = [1;2].
+Proof. reflexivity. Qed.
+
+(* the concrete Buffer grows beyond its initial size *)
+Example ex_rawbuf :
+  let b := rb_add (rb_add (rb_init 4) [1;2]) [3;4;5] in
+  rb_view b = [1;2;3;4;5] /\ rb_length b = 5 /\
+  rb_view (rb_set b [9]) = [9] /\ rb_view (rb_reset b) = [].
+Proof. vm_compute. auto. Qed.
+
+(* one block through the toy cipher: c = (p xor iv) xor 90 *)
+Example ex_one_block :
+  cbc_enc toyE ex_iv (ex_plain 16) =
+  ([63;61;63;57;55;53;55;57;63;61;63;57;39;37;39;57],
+   [63;61;63;57;55;53;55;57;63;61;63;57;39;37;39;57]).
+Proof. vm_compute. reflexivity. Qed.
+
+(* compress() on chunks of 3, 17, 0 and 15 bytes, then flush() *)
+Example ex_compress_run :
+  let chunks := [ex_plain 3; map (Z.add 3) (ex_plain 17); []; map (Z.add 20) (ex_plain 15)] in
+  let '(st1, o1) := aes_compress toyE (cinit ex_iv) (nth 0 chunks []) in
+  let '(st2, o2) := aes_compress toyE st1 (nth 1 chunks []) in
+  let '(st3, o3) := aes_compress toyE st2 (nth 2 chunks []) in
+  let '(st4, o4) := aes_compress toyE st3 (nth 3 chunks []) in
+  let '(st5, o5) := aes_flush toyE st4 in
+  o1 = [] /\ cbuf st1 = ex_plain 3 /\
+  blen o2 = 16 /\ cbuf st2 = [17;18;19;20] /\
+  o3 = [] /\ cbuf st3 = [17;18;19;20] /\
+  blen o4 = 16 /\ cbuf st4 = [33;34;35] /\
+  blen o5 = 16 /\ cbuf st5 = [] /\
+  o1 ++ o2 ++ o3 ++ o4 ++ o5 = fst (cbc_enc toyE ex_iv (ex_plain 35 ++ zeros 13)).
+Proof. vm_compute. repeat split; reflexivity. Qed.
+
+(* encrypt in odd chunks, decrypt in other (legal) chunks: pad16 plain comes back *)
+Example ex_roundtrip :
+  let c := compress_stream toyE ex_iv [ex_plain 5; ex_plain 0; map (Z.add 5) (ex_plain 32)] in
+  blen c = 48 /\
+  decompress_stream toyD ex_iv [firstn 7 c; skipn 7 (firstn 30 c); skipn 30 c]
+  = ex_plain 37 ++ zeros 11.
+Proof. vm_compute. split; reflexivity. Qed.
+
+(* ---------------------------------------------------------------------- *)
+(* Theorem 5: the unrestricted decompress statement is FALSE of the model. *)
+(* 32 bytes of genuine ciphertext delivered as 5 + 5 + 22 bytes: on the   *)
+(* second call buflen = 5, currentlen = 10, nextpos = 0, so               *)
+(*   temp2 = data[-5:]  = the whole second chunk                          *)
+(*   buf.add(data[:-5]) = nothing                                         *)
+(*   cipher.decrypt(view of 5 bytes)  -> ValueError in pycryptodome;      *)
+(* in the total model the 5-byte view is dropped by cbc_dec and then      *)
+(* buf.set(temp2) overwrites the first chunk, which is lost.              *)
+(* ---------------------------------------------------------------------- *)
+
+Definition ex_cipher32 : bytes := fst (cbc_enc toyE ex_iv (ex_plain 32)).
+Definition ex_short_chunks : list bytes :=
+  [firstn 5 ex_cipher32; firstn 5 (skipn 5 ex_cipher32); skipn 10 ex_cipher32].
+
+Theorem aes_decompress_short_refuted :
+  exists (iv : bytes) (chunks : list bytes),
+    (* total model: wrong plaintext *)
+    (let '(st, out) := decompress_all toyD (dinit iv) chunks in
+     let '(_, tail) := aes_decompress toyD st [] in out ++ tail)
+    <> fst (cbc_dec toyD iv (pad16 (concat chunks))) /\
+    (* checked model: the second call raises (ValueError) *)
+    decompress_all_chk toyD (dinit iv) chunks = Err EOther /\
+    (* although this is a legal ciphertext and the reference decrypts it *)
+    fst (cbc_dec toyD iv (pad16 (concat chunks))) = ex_plain 32 /\
+    dec_chunks_ok 0 chunks = false.
+Proof.
+  exists ex_iv, ex_short_chunks. split; [|split; [|split]].
+  - vm_compute. intro H. discriminate H.
+  - vm_compute. reflexivity.
+  - vm_compute. reflexivity.
+  - vm_compute. reflexivity.
+Qed.
+
+(* A second way to break it, without any exception: an EMPTY chunk arriving
+   while the residue is non-empty takes the "padding" branch prematurely.   *)
+Definition ex_empty_chunks : list bytes :=
+  [firstn 5 ex_cipher32; []; skipn 5 ex_cipher32].
+
+Theorem aes_decompress_empty_chunk_refuted :
+  exists (iv : bytes) (chunks : list bytes),
+    decompress_stream toyD iv chunks <> fst (cbc_dec toyD iv (pad16 (concat chunks))) /\
+    (exists r, decompress_all_chk toyD (dinit iv) chunks = Ok r) /\
+    blen (decompress_stream toyD iv chunks) = 48 /\
+    blen (concat chunks) = 32.
+Proof.
+  exists ex_iv, ex_empty_chunks. split; [|split; [|split]].
+  - vm_compute. intro H. discriminate H.
+  - eexists. vm_compute. reflexivity.
+  - vm_compute. reflexivity.
+  - vm_compute. reflexivity.
+Qed.
+
+(* the general theorems instantiated at the toy cipher *)
+Example toy_roundtrip (pchunks cchunks : list bytes)
+  (Hcat : concat cchunks = compress_stream toyE ex_iv pchunks)
+  (Hok : dec_chunks_ok 0 cchunks = true) :
+  decompress_stream toyD ex_iv cchunks = pad16 (concat pchunks).
+Proof.
+  exact (aes_roundtrip_stream toyE toyD toy_Db_Eb toy_Eb_len ex_iv pchunks cchunks
+           eq_refl Hcat Hok).
+Qed.
+
+Check cbc_enc_app.
+Check cbc_dec_app.
+Check aes_compress_residue.
+Check compress_all_residue.
+Check compress_all_residue_init.
+Check aes_decompress_residue_any.
+Check aes_compress_chunking.
+Check aes_decompress_chunking.
+Check aes_decompress_chunking_ge16.
+Check cbc_dec_enc.
+Check aes_roundtrip.
+Check aes_roundtrip_stream.
+Check aes_compress_out_len.
+Check aes_decompress_out_len.
+Check aes_compress_total_length.
+Check aes_flush_chk_ok.
+Check aes_compress_chk_ok.
+Check aes_decompress_chk_ok.
+Check aes_decompress_chk_err.
+Check decompress_all_chk_ok.
+
+Print Assumptions cbc_enc_app.
+Print Assumptions cbc_dec_app.
+Print Assumptions cbc_dec_enc.
+Print Assumptions compress_all_residue_init.
+Print Assumptions aes_decompress_residue_any.
+Print Assumptions aes_compress_chunking.
+Print Assumptions aes_decompress_chunking.
+Print Assumptions aes_decompress_chunking_ge16.
+Print Assumptions aes_roundtrip.
+Print Assumptions aes_decompress_short_refuted.
+Print Assumptions aes_decompress_empty_chunk_refuted.
+Print Assumptions aes_compress_out_len.
+Print Assumptions aes_decompress_out_len.
+Print Assumptions aes_compress_total_length.
+Print Assumptions aes_compress_chk_ok.
+Print Assumptions aes_flush_chk_ok.
+Print Assumptions aes_decompress_chk_ok.
+Print Assumptions aes_decompress_chk_err.
+Print Assumptions decompress_all_chk_ok.
+Print Assumptions rb_add_view.
+Print Assumptions toy_roundtrip.
